@@ -54,22 +54,17 @@ def run(ctx):
     concs = open(os.path.join(gen["dir"], "vec_conc.ndjson")).read().splitlines()
     rnd = random.Random(ctx.seed * 7919 + 38)
     if ctx.thorough():
+        # thorough: every script of the larger bound, every schedule of the quick bound and a seeded sample of
+        # the longer schedules
+        short = set(open(os.path.join(ctx.tlc("CacheGen", cfg="CacheGen_quick.cfg", workers=1, name="gen_short", timeout=1800)["dir"],
+                                      "vec_conc.ndjson")).read().splitlines())
+        longer = [c for c in concs if c not in short]
         pick_s = scripts
-        pick_c = rnd.sample(concs, min(len(concs), 12000))
+        pick_c = sorted(short) + rnd.sample(longer, min(len(longer), 30000))
     else:
-        # quick: seeded sample; scripts that start by filling the cache are preferred (the others mostly
-        # apply damage to an empty cache)
-        warm = [s for s in scripts if '"script":["load"' in s]
-        cold = [s for s in scripts if '"script":["load"' not in s]
-        pick_s = rnd.sample(warm, min(len(warm), 330)) + rnd.sample(cold, min(len(cold), 120))
-        # downloads that fail half way (after a release) into an empty cache are rare in the space
-        def midfail(c):
-            sc = json.loads(c)
-            s_ = sc["schedule"]
-            return sc["init"] == "absent" and "fail" in s_ and any(x in s_[:s_.index("fail")] for x in ("rel", "relnew"))
-        mf = [c for c in concs if midfail(c)]
-        rest = [c for c in concs if not midfail(c)]
-        pick_c = rnd.sample(rest, min(len(rest), 260)) + rnd.sample(mf, min(len(mf), 90))
+        # quick: the whole space of the quick bound (scripts of <= 4 steps, schedules of <= 4 steps)
+        pick_s = scripts
+        pick_c = concs
     vec = os.path.join(ctx.work, "vec.ndjson")
     open(vec, "w").write("\n".join(pick_s + pick_c) + "\n")
 
@@ -96,7 +91,8 @@ def run(ctx):
            "scenario_space": {"scripts": len(scripts), "concurrent_schedules": len(concs)},
            "replayed": {"scripts": len(pick_s), "concurrent_schedules": len(pick_c)},
            "counters": res.get("counters", {}), "design_runs": des,
-           "exhaustive": {"scripts": ctx.thorough(), "concurrent_schedules": len(pick_c) == len(concs)}}
+           "exhaustive": {"scripts": True, "concurrent_schedules": len(pick_c) == len(concs)},
+           "bounds": {"script_steps": 5 if ctx.thorough() else 4, "schedule_steps": 5 if ctx.thorough() else 4}}
     return verif.finish(ctx, "fault_enumeration", cov, [
         "Cache.tla is the oracle: verified loads return the repository's bytes or fail; the first damaged copy a process meets is replaced by a good one; listing drops stale copies; restic itself never leaves a bad file under the final name; unverified backend-level reads are judged only while nobody corrupted the cache",
         "second and later damage of the same file within one process may end in an error (documented circuit breaker: a cached file is deleted at most once per run)",
